@@ -315,6 +315,8 @@ func checkC07(w *World, r *Report) {
 	ruleDecorExchange(w, r, "C07")
 	ruleFormatExchange(w, r, "C07")
 	ruleFillAccounting(w, r, "C07")
+	ruleRowsFit(w, r, "C07")
+	ruleRowsAreLines(w, r, "C07")
 }
 
 // ruleFillAccounting: in bFiller.Fill every appended component advances fillCount by that
